@@ -19,6 +19,8 @@ from typing import Any, Dict, List, Optional, Sequence, Tuple
 
 import z3
 
+REPO = os.environ.get("VERIF_REPO", "/repo")   # development only: another checkout of the library
+
 from .symnum import HarnessError
 
 try:  # Python 3.11+
@@ -103,10 +105,10 @@ def runtime_definitions(source: str) -> Dict[str, str]:
     return out
 
 
-def build_fresh(grammar_path: str = "/repo/src/measured/measured.lark",
+def build_fresh(grammar_path: str = REPO + "/src/measured/measured.lark",
                 python: str = "/venv/bin/python") -> Tables:
     """The Makefile's own generation command, in a scratch directory outside /repo and /verif."""
-    mk = open("/repo/Makefile").read()
+    mk = open(REPO + "/Makefile").read()
     if "lark.tools.standalone --start unit --start quantity" not in mk:
         raise HarnessError("the Makefile rule for _parser.py changed: regenerate command unknown")
     tmp = tempfile.mkdtemp(prefix="c16-fresh-")
